@@ -273,7 +273,9 @@ def tree_items(rng, n):
     items = []
     for t in range(n):
         stmt = t % 3 == 0
-        kw = dict(float_literals=(0.0, 1.0, 0.5, 1.5, 0.1, 0.3, 2.5), allow_unsafe=0.0)
+        # literals incl. ones that need all 17 significant digits to round-trip through text
+        kw = dict(float_literals=(0.0, 1.0, 0.5, 1.5, 0.1, 0.3, 2.5, 0.30000000000000004, 1.0000000000000002, 123456789.12345679,
+                                  1e22, 1e-7, 2.2250738585072014e-308), allow_unsafe=0.0)
         fn = irgen.statement_program(rng, **kw) if stmt else irgen.expression_program(rng, **kw)
         module = A.Module([fn])
         ia, fa = irgen.environment(rng, float_values=(0.1, 0.2, 0.3, 1.0 / 3.0, 1e16 + 2.0, -0.7, 1.0, 0.0, 2.5))
@@ -300,6 +302,16 @@ def shard(rec, tier, index, n_shards):
     try:
         items = kernel_items(rng, plan["kernels"] // n_shards) + tree_items(rng, plan["trees"] // n_shards)
         # the K5 class as its own small workload so that the classifier is exercised every run
+        # float literals that need 17 significant digits (both printers must keep the exact double)
+        for text in ["a(i) = b(i) * 0.30000000000000004 + c(i) * 1.0000000000000002 + d(i) * 0.1",
+                     "a(i) = b(i) * 123456789.12345679 + c(i) * 1e22 + d(i) * 2.2250738585072014e-308"] if index == 1 else []:
+            target, tree = gen.parse(text)
+            case = engine.build_case(rng, target, tree, {"a": "d", "b": "d", "c": "s", "d": "d"}, values=gen.ULP, capacity=16, sizes_pool=[4])
+            problem = engine.make_problem(case)
+            module = engine.generate_module(problem, ("evaluate",), 16)
+            items.append(Item(module, native.tensor_specs(case, problem), ["evaluate"], {},
+                              (lambda case=case: {"kind": "kernel", "case": case.describe(), "calls": ["evaluate"]}),
+                              (lambda case=case, problem=problem: engine.setup_heap(case, problem))))
         for text in ["a(i) = b(i) + (c(i) + d(i))", "a(i) = b(i) * (c(i) * d(i))"] if index == 0 else []:
             target, tree = gen.parse(text)
             case = engine.build_case(rng, target, tree, {"a": "d", "b": "d", "c": "d", "d": "d"}, values=[0.1, 0.2, 0.3, 1.1, 2.3], capacity=16, sizes_pool=[3])
